@@ -224,6 +224,13 @@ Proof. intros. reflexivity. Qed.
 Lemma std_part_name_noslash : forall i s, starts_with (std_part_name i s) [slash] = false.
 Proof. intros. reflexivity. Qed.
 
+Lemma sorted_map_prefix : forall q l, sorted_str l -> sorted_str (map (fun n => q ++ n) l).
+Proof.
+  intros q l H. induction H as [|a|a b l Hab H IH]; cbn; try constructor.
+  - rewrite str_leb_app. exact Hab.
+  - exact IH.
+Qed.
+
 Section Layout.
 Variable compress : codec -> bytes -> bytes.
 
@@ -242,9 +249,11 @@ Variable p : path.
 Hypothesis p_fresh : fs_exists f p = false.
 Hypothesis p_nonempty : p <> [].
 Hypothesis p_no_trailing_sep : ends_with p [slash] = false.
-Hypothesis p_has_sep : contains_char slash p = true.
 
 Let pd := p ++ [slash].
+(* names resolved for an expression without a separator carry a leading "./" *)
+Definition rel_prefix (p : path) : str := if contains_char slash p then [] else dot_slash.
+Let pre := rel_prefix p.
 
 Lemma f_not_file : forall e, In e f -> fst e <> p.
 Proof.
@@ -329,9 +338,10 @@ Definition entry (ip : Z * list A) : path * bytes :=
 Lemma save_multi : forall parts, length parts <> 1%nat -> Z.of_nat (length parts) <= 100000 ->
   let names := map name (zrange 0 (Z.of_nat (length parts))) in
   exists f', save_parts compress payload sfx pname marker f p parts = Ok f' /\
-    sort_str (resolve f' p) = names /\
+    sort_str (resolve f' p) = map (fun n => pre ++ n) names /\
     Forall2 (fun n xs => fs_lookup f' n = Some (enc compress (get_codec n) (payload xs))) names parts /\
-    fs_lookup f' (p ++ slash :: marker) = Some (enc compress (get_codec (p ++ slash :: marker)) []).
+    fs_lookup f' (p ++ slash :: marker) = Some (enc compress (get_codec (p ++ slash :: marker)) []) /\
+    (forall e, In e f' -> In e f \/ In (fst e) names \/ fst e = p ++ slash :: marker).
 Proof.
   intros parts L Hn names. unfold save_parts. rewrite p_fresh.
   destruct (Nat.eqb_spec (length parts) 1) as [E|_]; [contradiction|].
@@ -367,7 +377,7 @@ Proof.
   { rewrite map_app, Hkeys. cbn [map fst M]. apply nodup_snoc; [apply names_nodup; exact Hn|exact Hmk_names]. }
   exists ((f ++ entries) ++ [M]). split.
   { rewrite Hfold, marker_join. unfold dump. rewrite fs_write_fresh by exact Hmk_fresh. reflexivity. }
-  split; [|split].
+  split; [|split; [|split]].
   - (* resolve + sorted *)
     unfold resolve.
     assert (Hnf : fs_isfile ((f ++ entries) ++ [M]) p = false).
@@ -383,7 +393,7 @@ Proof.
         + unfold names in Hk. apply in_map_iff in Hk. destruct Hk as [i [Hi _]].
           unfold name in Hi. rewrite Heq in Hi. exact (below_not_p _ Hi).
         + unfold mk in Hk. rewrite Heq in Hk. exact (below_not_p _ Hk). }
-    replace (fs_isfile _ p) with false by (symmetry; exact Hnf). rewrite p_has_sep.
+    replace (fs_isfile _ p) with false by (symmetry; exact Hnf).
     rewrite !filter_app.
     rewrite (filter_all_false _ f).
     2:{ intros e He. apply not_true_is_false. intros Hs. apply glob_below in Hs.
@@ -396,8 +406,10 @@ Proof.
         apply G. exact Hk. }
     cbn [filter M fst]. unfold mk at 1. rewrite glob_match, marker_not_part.
     cbn [app]. rewrite app_nil_r.
-    transitivity (sort_str names); [|apply sort_sorted_id, names_sorted; exact Hn].
-    f_equal. rewrite <- Hkeys. apply map_ext. reflexivity.
+    fold (rel_prefix p). fold pre.
+    transitivity (sort_str (map (fun n => pre ++ n) names));
+      [|apply sort_sorted_id, sorted_map_prefix, names_sorted; exact Hn].
+    f_equal. rewrite <- Hkeys. rewrite map_map. apply map_ext. reflexivity.
   - (* every part file holds its partition *)
     unfold names. apply Forall2_combine; [exact Hlen|].
     intros i xs Hin. rewrite <- app_assoc.
@@ -408,6 +420,10 @@ Proof.
     rewrite fs_lookup_skip by (intros e He; apply below_not_f; [assumption|apply below_start]).
     rewrite (fs_lookup_nodup _ mk (enc compress (get_codec mk) []) Hnd) by (apply in_or_app; right; left; reflexivity).
     reflexivity.
+  - intros e He. apply in_app_or in He. destruct He as [He|[<-|[]]].
+    + apply in_app_or in He. destruct He as [He|He]; [left; exact He|].
+      right. left. rewrite <- Hkeys. apply in_map. exact He.
+    + right. right. reflexivity.
 Qed.
 End Save.
 
@@ -473,6 +489,72 @@ Proof.
   exists pss. split; [exact Hr|]. rewrite Hc, Hn, H2. reflexivity.
 Qed.
 
+
+(* ---------- relative targets: the resolver prefixes "./", the loader finds the same file *)
+Lemma first_slash : forall (p x r : str), contains_char slash p = false ->
+  dot_slash ++ x = p ++ slash :: r -> p = [46%N] /\ x = r.
+Proof.
+  intros p x r Hp E. destruct p as [|c p]; [cbn in E; discriminate|].
+  cbn in E. injection E as <- E.
+  destruct p as [|d p]; [cbn in E; injection E as <-; auto|].
+  cbn in E. injection E as <- E. cbn in Hp. discriminate.
+Qed.
+
+Lemma starts_with_app_short : forall x a b, (length x <= length a)%nat -> starts_with (a ++ b) x = starts_with a x.
+Proof.
+  induction x as [|c x IH]; intros a b L; [reflexivity|].
+  destruct a as [|d a]; [cbn in L; lia|]. cbn [app starts_with]. rewrite IH by (cbn in L; lia). reflexivity.
+Qed.
+Lemma ends_with_prefix : forall q s e, (length e <= length s)%nat -> ends_with (q ++ s) e = ends_with s e.
+Proof.
+  intros q s e L. unfold ends_with. rewrite rev_app_distr. apply starts_with_app_short. rewrite !rev_length. exact L.
+Qed.
+Lemma endings_short : forallb (fun e : str => (length e <=? 8)%nat) all_endings = true.
+Proof. vm_compute. reflexivity. Qed.
+Lemma find_ext_in : forall {A} (P Q : A -> bool) l, (forall x, In x l -> P x = Q x) -> find P l = find Q l.
+Proof.
+  induction l as [|x l IH]; intros H; [reflexivity|]. cbn. rewrite (H x) by (left; reflexivity).
+  rewrite IH by (intros; apply H; right; assumption). reflexivity.
+Qed.
+Lemma existsb_ext_in : forall {A} (P Q : A -> bool) l, (forall x, In x l -> P x = Q x) -> existsb P l = existsb Q l.
+Proof.
+  induction l as [|x l IH]; intros H; [reflexivity|]. cbn. rewrite (H x) by (left; reflexivity).
+  rewrite IH by (intros; apply H; right; assumption). reflexivity.
+Qed.
+
+Lemma get_codec_rel : forall n, contains_char slash n = true -> (8 <= length n)%nat ->
+  get_codec (dot_slash ++ n) = get_codec n.
+Proof.
+  intros n Hs L. unfold get_codec, get_codec_name. f_equal.
+  assert (Hg : get_codec_guard (dot_slash ++ n) = get_codec_guard n).
+  { unfold get_codec_guard. fold slash.
+    apply rfind_present in Hs.
+    rewrite (rfind_app_in slash dot_slash n) by exact Hs.
+    rewrite contains_app. change (contains_char 46%N dot_slash) with true. cbn [orb negb].
+    destruct (contains_char 46%N n) eqn:Hd.
+    - apply rfind_present in Hd. rewrite (rfind_app_in 46%N dot_slash n) by exact Hd. cbn [negb orb length].
+      rewrite !Z.gtb_ltb.
+      destruct (Z.ltb_spec (rfind_char 46%N n) (rfind_char slash n));
+        destruct (Z.ltb_spec (Z.of_nat (length dot_slash) + rfind_char 46%N n)
+                             (Z.of_nat (length dot_slash) + rfind_char slash n)); try reflexivity; lia.
+    - apply rfind_absent in Hd. rewrite (rfind_app_out 46%N dot_slash n) by exact Hd. cbn [negb orb length].
+      change (rfind_char 46%N dot_slash) with 0. rewrite Z.gtb_ltb. apply Z.ltb_lt.
+      change (length dot_slash) with 2%nat. lia. }
+  rewrite Hg. destruct (get_codec_guard n); [reflexivity|].
+  rewrite (find_ext_in _ (fun ec : list str * string => existsb (fun e => ends_with n e) (fst ec))); [reflexivity|].
+  intros ec Hec. apply existsb_ext_in. intros e He. apply ends_with_prefix.
+  pose proof endings_short as H8. rewrite forallb_forall in H8.
+  assert (Hin : In e all_endings) by (unfold all_endings; apply in_flat_map; exists ec; auto).
+  specialize (H8 e Hin). apply Nat.leb_le in H8. lia.
+Qed.
+
+Lemma pad_int_length5 : forall i, (5 <= length (pad_int 5 i))%nat.
+Proof.
+  intros i. unfold pad_int. destruct (i <? 0); cbn [length]; rewrite fixed_digits_length; lia.
+Qed.
+Lemma fs_lookup_absent : forall f p, (forall e, In e f -> fst e <> p) -> fs_lookup f p = None.
+Proof. intros f p H. rewrite <- (app_nil_r f). rewrite fs_lookup_skip by exact H. reflexivity. Qed.
+
 Section RoundTrip.
 Variable compress : codec -> bytes -> bytes.
 Variable decompress : codec -> bytes -> option bytes.
@@ -491,6 +573,7 @@ Variable marker : str.
 Hypothesis pname_std : forall i s, pname i s = std_part_name i s.
 Hypothesis marker_not_part : starts_with marker part_word = false.
 Hypothesis marker_rel : starts_with marker [slash] = false.
+Hypothesis marker_not_dot : starts_with marker [46%N] = false.
 
 Lemma has_sep_nonempty : forall p, contains_char slash p = true -> p <> [].
 Proof. intros p H E. subst. discriminate. Qed.
@@ -507,17 +590,78 @@ Proof.
   unfold data_names, chunks. destruct (Nat.eqb_spec (length parts) 1) as [L|L].
   - destruct (save_single compress payload sfx pname marker f p Hf parts L) as [f' [H1 [H2 H3]]].
     exists f'. split; [exact H1|]. split; [exact H2|]. constructor; [exact H3|constructor].
-  - destruct (save_multi compress payload sfx pname marker pname_std marker_not_part marker_rel f p Hf Hp He Hs parts L Hn)
+  - destruct (save_multi compress payload sfx pname marker pname_std marker_not_part marker_rel f p Hf Hp He parts L Hn)
       as [f' [H1 [H2 [H3 _]]]].
     exists f'. split; [exact H1|]. split.
-    + rewrite H2. apply map_ext. intros i.
+    + rewrite H2. unfold rel_prefix. rewrite Hs. rewrite map_map. apply map_ext. intros i. cbn [app].
       symmetry. apply path_join_std; try assumption. apply std_part_name_noslash.
     + erewrite map_ext; [exact H3|]. intros i. cbv beta.
       apply path_join_std; try assumption. apply std_part_name_noslash.
 Qed.
 
+Lemma Forall2_map_l : forall {X Y Z0} (g : X -> Y) (R : Y -> Z0 -> Prop) l1 l2,
+  Forall2 (fun x y => R (g x) y) l1 l2 -> Forall2 R (map g l1) l2.
+Proof. intros X Y Z0 g R l1 l2 H. induction H; cbn; constructor; assumption. Qed.
+Lemma Forall2_impl_in0 : forall {X Y} (R R' : X -> Y -> Prop) l1 l2,
+  Forall2 R l1 l2 -> (forall x y, In x l1 -> R x y -> R' x y) -> Forall2 R' l1 l2.
+Proof.
+  intros X Y R R' l1 l2 H. induction H as [|x y l1 l2 Hxy H IH]; intros Himp; [constructor|].
+  constructor; [apply Himp; [left; reflexivity|assumption]|]. apply IH. intros; apply Himp; [right|]; assumption.
+Qed.
+
+(* for EVERY target shape (with or without a separator): the files the reader resolves after the save
+   load, in order, to the payloads of the chunks *)
+Theorem save_loadable : forall f p parts,
+  fs_exists f p = false -> p <> [] -> ends_with p [slash] = false ->
+  (contains_char slash p = false -> fs_exists f (dot_slash ++ p) = false) ->
+  Z.of_nat (length parts) <= 100000 ->
+  exists f' rnames, save_parts compress payload sfx pname marker f p parts = Ok f' /\
+    sort_str (resolve f' p) = rnames /\
+    Forall2 (fun n xs => load_bytes decompress f' n = Ok (payload xs)) rnames (chunks parts).
+Proof.
+  intros f p parts Hf Hp He Halias Hn. destruct (contains_char slash p) eqn:Hs.
+  - destruct (save_layout f p parts Hf He Hs Hn) as [f' [H1 [H2 H3]]].
+    exists f', (data_names sfx p parts). split; [exact H1|]. split; [exact H2|].
+    eapply Forall2_impl_in0; [exact H3|]. intros n xs _ Hl. cbv beta in *.
+    apply (load_written compress decompress codec_roundtrip). exact Hl.
+  - specialize (Halias eq_refl). unfold chunks.
+    destruct (Nat.eqb_spec (length parts) 1) as [L|L].
+    + destruct (save_single compress payload sfx pname marker f p Hf parts L) as [f' [H1 [H2 H3]]].
+      exists f', [p]. split; [exact H1|]. split; [exact H2|].
+      constructor; [|constructor]. apply (load_written compress decompress codec_roundtrip). exact H3.
+    + destruct (save_multi compress payload sfx pname marker pname_std marker_not_part marker_rel f p Hf Hp He parts L Hn)
+        as [f' [H1 [H2 [H3 [_ Hkeys]]]]].
+      eexists f', _. split; [exact H1|]. split; [exact H2|].
+      unfold rel_prefix. rewrite Hs. apply Forall2_map_l.
+      eapply Forall2_impl_in0; [exact H3|]. intros n xs Hin Hl. cbv beta in *.
+      apply in_map_iff in Hin. destruct Hin as [i [Hi _]].
+      assert (Hnone : fs_lookup f' (dot_slash ++ n) = None).
+      { apply fs_lookup_absent. intros e He' E.
+        destruct (Hkeys e He') as [Hf0|[Hnm|Hmk]].
+        - (* a file that was there before would lie below ./p *)
+          unfold fs_exists in Halias. apply orb_false_elim in Halias. destruct Halias as [_ Hd].
+          pose proof (existsb_false_all _ _ Hd e Hf0) as Hfalse. cbv beta in Hfalse.
+          assert (Htrue : starts_with (fst e) ((dot_slash ++ p) ++ [slash]) = true).
+          { rewrite E, <- Hi. apply starts_with_spec. exists (std_part_name i (sfx p)).
+            rewrite <- !app_assoc. reflexivity. }
+          exact (eq_true_false_abs _ Htrue Hfalse).
+        - apply in_map_iff in Hnm. destruct Hnm as [j [Hj _]].
+          rewrite <- Hj, <- Hi in E. symmetry in E.
+          destruct (first_slash p _ _ Hs E) as [-> Hx]. cbn in Hx. discriminate.
+        - rewrite Hmk, <- Hi in E. symmetry in E.
+          destruct (first_slash p _ _ Hs E) as [-> Hx]. rewrite <- Hx in marker_not_dot. cbn in marker_not_dot. discriminate. }
+      unfold load_bytes, fs_lookup_rel. rewrite Hnone.
+      rewrite starts_with_app. change (skipn 2 (dot_slash ++ n)) with n. rewrite Hl.
+      rewrite get_codec_rel.
+      * rewrite (dec_enc compress decompress codec_roundtrip). reflexivity.
+      * rewrite <- Hi. rewrite contains_app. apply orb_true_iff. right. reflexivity.
+      * rewrite <- Hi. rewrite app_length. cbn [length]. unfold std_part_name. rewrite !app_length.
+        pose proof (pad_int_length5 i). destruct p; [contradiction|]. cbn [length]. lia.
+Qed.
+
 Theorem save_read_roundtrip : forall f p parts minP,
-  fs_exists f p = false -> ends_with p [slash] = false -> contains_char slash p = true ->
+  fs_exists f p = false -> p <> [] -> ends_with p [slash] = false ->
+  (contains_char slash p = false -> fs_exists f (dot_slash ++ p) = false) ->
   Z.of_nat (length parts) <= 100000 ->
   Forall good parts -> good (concat parts) ->
   exists f' pss,
@@ -525,16 +669,13 @@ Theorem save_read_roundtrip : forall f p parts minP,
     read_parts (fun n => res_bind (load_bytes decompress f' n) decode) f' p minP = Ok pss /\
     concat pss = concat parts.
 Proof.
-  intros f p parts minP Hf He Hs Hn Hgood Hgoodc.
-  destruct (save_layout f p parts Hf He Hs Hn) as [f' [H1 [H2 H3]]].
+  intros f p parts minP Hf Hp He Halias Hn Hgood Hgoodc.
+  destruct (save_loadable f p parts Hf Hp He Halias Hn) as [f' [rnames [H1 [H2 H3]]]].
   assert (Hchunks : Forall good (chunks parts)).
   { unfold chunks. destruct (length parts =? 1)%nat; [constructor; [assumption|constructor]|assumption]. }
-  assert (HF : Forall2 (fun n c => res_bind (load_bytes decompress f' n) decode = Ok c)
-                       (data_names sfx p parts) (chunks parts)).
+  assert (HF : Forall2 (fun n c => res_bind (load_bytes decompress f' n) decode = Ok c) rnames (chunks parts)).
   { eapply Forall2_refine; [exact H3|exact Hchunks|].
-    intros n xs Hl Hg. cbv beta in *.
-    rewrite (load_written compress decompress codec_roundtrip f' n (payload xs) Hl). cbn [res_bind].
-    apply decode_payload. exact Hg. }
+    intros n xs Hl Hg. cbv beta in *. rewrite Hl. cbn [res_bind]. apply decode_payload. exact Hg. }
   destruct (read_parts_forall2 _ f' p minP _ _ H2 HF) as [pss [Hr Hc]].
   exists f', pss. split; [exact H1|]. split; [exact Hr|].
   rewrite Hc. unfold chunks. destruct (length parts =? 1)%nat; [cbn; apply app_nil_r|reflexivity].
@@ -570,7 +711,8 @@ Proof.
 Qed.
 
 Theorem text_roundtrip : forall f p parts minP,
-  fs_exists f p = false -> ends_with p [slash] = false -> contains_char slash p = true ->
+  fs_exists f p = false -> p <> [] -> ends_with p [slash] = false ->
+  (contains_char slash p = false -> fs_exists f (dot_slash ++ p) = false) ->
   Z.of_nat (length parts) <= 100000 ->
   Forall (Forall no_break) parts -> Forall (Forall scalar_str) parts ->
   exists f' pss,
@@ -578,15 +720,15 @@ Theorem text_roundtrip : forall f p parts minP,
     read_text decompress f' p minP = Ok pss /\
     concat pss = concat parts.
 Proof.
-  intros f p parts minP Hf He Hs Hn Hb Hsc.
+  intros f p parts minP Hf Hp He Hs Hn Hb Hsc.
   assert (Hgood : Forall good_lines parts).
   { clear -Hb Hsc. induction parts as [|x parts IH]; [constructor|].
     inversion Hb; inversion Hsc; subst. constructor; [split; assumption|apply IH; assumption]. }
   assert (Hgoodc : good_lines (concat parts)).
   { split; apply Forall_concat_intro; assumption. }
   destruct (save_read_roundtrip text_payload text_decode good_lines text_decode_payload
-              text_codec_suffix text_part_name text_marker_name (fun i s => eq_refl) eq_refl eq_refl
-              f p parts minP Hf He Hs Hn Hgood Hgoodc) as [f' [pss [H1 [H2 H3]]]].
+              text_codec_suffix text_part_name text_marker_name (fun i s => eq_refl) eq_refl eq_refl eq_refl
+              f p parts minP Hf Hp He Hs Hn Hgood Hgoodc) as [f' [pss [H1 [H2 H3]]]].
   exists f', pss. split; [exact H1|]. split; [|exact H3].
   rewrite read_text_as_decode. exact H2.
 Qed.
@@ -595,17 +737,18 @@ Qed.
 Theorem pickle_roundtrip : forall (obj : Type) (dumps : list obj -> bytes) (loads : bytes -> res (list obj)),
   (forall xs, loads (dumps xs) = Ok xs) ->
   forall f p parts minP,
-  fs_exists f p = false -> ends_with p [slash] = false -> contains_char slash p = true ->
+  fs_exists f p = false -> p <> [] -> ends_with p [slash] = false ->
+  (contains_char slash p = false -> fs_exists f (dot_slash ++ p) = false) ->
   Z.of_nat (length parts) <= 100000 ->
   exists f' pss,
     save_pickle compress obj dumps f p parts = Ok f' /\
     pickle_file decompress obj loads f' p minP = Ok pss /\
     concat pss = concat parts.
 Proof.
-  intros obj dumps loads Hrt f p parts minP Hf He Hs Hn.
+  intros obj dumps loads Hrt f p parts minP Hf Hp He Hs Hn.
   apply (save_read_roundtrip dumps loads (fun _ => True) (fun xs _ => Hrt xs)
-           pickle_codec_suffix pickle_part_name pickle_marker_name (fun i s => eq_refl) eq_refl eq_refl
-           f p parts minP Hf He Hs Hn).
+           pickle_codec_suffix pickle_part_name pickle_marker_name (fun i s => eq_refl) eq_refl eq_refl eq_refl
+           f p parts minP Hf Hp He Hs Hn).
   - apply Forall_forall. trivial.
   - trivial.
 Qed.
